@@ -53,7 +53,8 @@ RULE += (' ' +
          'layouts from a fresh child interpreter, self-contained witness on '
          'failure); every other NBT value is taken out of a larger pynbt '
          'document. Round 15: packet write / read run with warnings '
-         'escalated to errors. ')
+         'escalated to errors. Final sweep: the look-alike texts include '
+         'texts with one control / whitespace character at either end. ')
 LEVEL_TEXT = ('Round-trip + exact-consumption + reference-encoding testing '
               'over the complete (class, supported version) configuration '
               'space with boundary and seeded random field values, and over '
